@@ -50,6 +50,9 @@ let run (cases : case list) =
     let wire_expect = ref [] in  (* bytes of an in-flight (parked) write *)
     let fed = ref 0 in
     let legit = ref 0 in
+    let expected = ref [] in      (* concatenation of the encodings of every item handed to a write, in order *)
+    let wire_total = ref [] in
+    let async_failed = ref false in
     let oracle_live = ref true in
     let fail ci i cl op impl = report_oracle ci i cl op ("obs=[" ^ impl ^ "]"); oracle_live := false in
     List.iteri (fun i (op, impl) ->
@@ -97,6 +100,21 @@ let run (cases : case list) =
           (* writes *)
           let wire = kv_def t "wire" "-" in
           let payload_of = function LWriteNext p | LAsyncWriteNext p -> Some p | _ -> None in
+          (* the byte stream the peer sees must always be a prefix of the items in submission order: a failed or
+             would-block write may leave a remainder to be sent first by the next write, never a repetition *)
+          (match payload_of mop with
+           | Some p when Z.leb (z_of_int (List.length p)) frame_MaxPayloadLength -> expected := !expected @ lencode p
+           | _ -> ());
+          (if String.length wire > 0 && wire.[0] <> 'h' then wire_total := !wire_total @ zlist_of_hex wire
+           else if wire <> "-" then async_failed := true);
+          (match kv t "wcb" with
+           | Some v -> (match String.split_on_char ':' v with [_; "0"] -> () | _ -> async_failed := true)
+           | None -> ());
+          (if not !async_failed then begin
+             let n = List.length !wire_total in
+             let pre = List.filteri (fun j _ -> j < n) !expected in
+             if n > List.length !expected || pre <> !wire_total then fail ci i "3" op impl
+           end);
           (match payload_of mop with
            | Some p when Z.leb (z_of_int (List.length p)) frame_MaxPayloadLength ->
              let enc = lencode p in
